@@ -83,7 +83,8 @@ func ApplyDefaultKESVerifier(auth *MessageAuthenticator) {
 	}
 	// Load via atomic.Value and type-assert
 	if val := defaultKESVerifier.Load(); val != nil {
-		if fn, ok := val.(func([]byte, []byte, []byte, uint64, uint64, uint64) (bool, error)); ok {
+		if fn, ok := val.(func([]byte, []byte, []byte, uint64, uint64, uint64) (bool, error)); ok &&
+			fn != nil {
 			auth.SetKESVerifier(fn)
 		}
 	}
@@ -319,7 +320,8 @@ func (m *MessageAuthenticator) verifyKESSignature(
 	kesVerifierVal := m.kesVerifier.Load()
 	if kesVerifierVal != nil {
 		kesVerifier, ok := kesVerifierVal.(func([]byte, []byte, []byte, uint64, uint64, uint64) (bool, error))
-		if ok {
+		// SetKESVerifier(nil) stores a typed nil func: the verifier was cleared
+		if ok && kesVerifier != nil {
 			kesPeriod := msg.Payload.KESPeriod
 			computedSlot := kesPeriod * m.slotsPerKesPeriod
 			if slot != nil {
